@@ -332,6 +332,54 @@ pub fn run(ctx: &Ctx) -> CheckResult {
         out
     });
     res.absorb(merge_jobs(outs));
+    // medium periods on tick-grid walks (ties, double tops / bottoms, a new extreme exactly when a tied one
+    // leaves): at every step the long-running instance vs a fresh one fed the last w inputs
+    if !res.out.failed() {
+        let mut tw: Vec<Cfg> = vec![];
+        for &n in if th { &[6usize, 9, 10, 14, 16, 20, 25, 33, 40][..] } else { &[9usize, 14, 20, 33][..] } {
+            for k in [Kind::Sma, Kind::Wma, Kind::Sd, Kind::Mad, Kind::Min, Kind::Max, Kind::FastStoch, Kind::Cci, Kind::Roc, Kind::Er, Kind::Mfi] {
+                tw.push(Cfg::p1(k, n));
+            }
+            tw.push(Cfg::pm(Kind::Bb, n, 2.0));
+        }
+        let len = if th { 8000 } else { 2500 };
+        let outs = par_run(ctx, &tw, |_, cfg| {
+            let mut out = JobOut::default();
+            let w = cfg.kind.window(cfg).unwrap();
+            let positive = matches!(cfg.kind, Kind::Roc | Kind::Er | Kind::Mfi | Kind::Cci);
+            let walk = super::refcmp::tick_walk(len, ctx.seed, !cfg.kind.has_scalar(), positive, false);
+            let r = std::panic::catch_unwind(std::panic::AssertUnwindSafe(|| {
+                let mut s = make(cfg);
+                walk.iter().map(|op| s.apply(op)).collect::<Vec<Out>>()
+            }));
+            let outs_long = match r {
+                Ok(o) => o,
+                Err(_) => {
+                    out.fail(Violation::new(PROP, cfg, &walk[..], "panic").obs("panic".into()).exp("outputs".into()));
+                    return out;
+                }
+            };
+            out.stats.traces += 1;
+            out.stats.transitions += len as u64;
+            for t in w..len {
+                let suffix = &walk[t + 1 - w..=t];
+                let b = match last_of(cfg, suffix) {
+                    Some(b) => b,
+                    None => {
+                        out.fail(Violation::new(PROP, cfg, suffix, "panic").obs("panic".into()).exp("outputs".into()));
+                        return out;
+                    }
+                };
+                out.stats.states += 1;
+                out.stats.transitions += w as u64;
+                if !compare(cfg, &walk[..=t], suffix, &outs_long[t], &b, &mut out) {
+                    return out;
+                }
+            }
+            out
+        });
+        res.absorb(merge_jobs(outs));
+    }
     // larger periods: spike-laden prefixes of several lengths x default suffixes of length w..w+2
     if !res.out.failed() {
         let periods: Vec<usize> = if th { vec![5, 6, 7, 8, 9, 13, 14, 16, 20, 31, 32, 33, 64, 100, 255, 256, 257] } else { vec![5, 8, 9, 14, 16, 20, 32, 33, 64] };
